@@ -13,11 +13,12 @@ import (
 
 type MsgCase struct {
 	Mod, Typ string
-	Key      int // index into the type's own table (-1: type has no table)
-	Inner    int // index used for tables deeper in the value
-	N        int // uniform list length
-	Mixed    int // >0: mixed shape number (lists get lengths by position)
-	PLen     int // >0: prefixed text has the concrete length PLen-1 (byte-sum frames: keeps the checksum terms closed)
+	Key      int  // index into the type's own table (-1: type has no table)
+	Inner    int  // index used for tables deeper in the value
+	N        int  // uniform list length
+	Mixed    int  // >0: mixed shape number (lists get lengths by position)
+	PLen     int  // >0: prefixed text has the concrete length PLen-1 (byte-sum frames: keeps the checksum terms closed)
+	NilParts bool // nested pointer parts of the value are absent
 }
 
 func (mc MsgCase) ID() string {
@@ -34,6 +35,9 @@ func (mc MsgCase) ID() string {
 	}
 	if mc.PLen > 0 {
 		s += fmt.Sprintf("/plen=%d", mc.PLen-1)
+	}
+	if mc.NilParts {
+		s += "/nilparts"
 	}
 	return s
 }
@@ -164,7 +168,7 @@ func (c *Ctx) newGen(mc MsgCase, dom string) *Gen {
 	if c.thorough() {
 		P = 12
 	}
-	g := &Gen{w: c.w, sc: c.sc, Dom: dom, P: P, Slack: 0, PLen: mc.PLen - 1, FixLen: c.fixLen}
+	g := &Gen{w: c.w, sc: c.sc, Dom: dom, P: P, Slack: 0, PLen: mc.PLen - 1, FixLen: c.fixLen, NilParts: mc.NilParts}
 	if dom == "wide" {
 		g.Slack = 2
 	}
